@@ -60,8 +60,8 @@ Theorem C16_replace : forall pre n,
   closed s n ->
   (next s = Some n \/ next s = None ->
      let L := length (sinks s) in
-     let s' := fst (step s (Req false)) in
-     snd (step s (Req false)) = [Create L; OpenUnder L] /\ next s' = Some L /\ L <> n /\
+     let s' := fst (step s (Req CIdle)) in
+     snd (step s (Req CIdle)) = [Create L; OpenUnder L] /\ next s' = Some L /\ L <> n /\
      live s' L /\ In (mkTask (ntask s) KReq L) (waiting s')) /\
   (forall f o, In o (snd (step s (Req f))) -> obs_sink o <> Some n) /\
   (forall f ls os o, In os (snd (run (fst (step s (Req f))) ls)) -> In o os -> obs_sink o <> Some n).
@@ -178,32 +178,39 @@ Print Assumptions C16_same_key.
    request follows: one Create, every Forward to sink 0; sink 0 is alive before and after (the
    hypotheses of C16_share are satisfiable) *)
 Example C16_example_concurrent :
-  snd (run init [Req false; Req false; Req false; OpenDone 0 true; Resume 2; Resume 0; Resume 1; Req false])
+  snd (run init [Req CIdle; Req CIdle; Req CIdle; OpenDone 0 true; Resume 2; Resume 0; Resume 1; Req CIdle])
   = [[Create 0; OpenUnder 0]; [OpenUnder 0]; [OpenUnder 0]; []; [Forward 2 0]; [Forward 0 0]; [Forward 1 0]; [Forward 3 0]]
-  /\ live (fst (run init [Req false])) 0
-  /\ live (fst (run (fst (run init [Req false])) [Req false; Req false; OpenDone 0 true; Resume 2; Resume 0; Resume 1; Req false])) 0.
+  /\ live (fst (run init [Req CIdle])) 0
+  /\ live (fst (run (fst (run init [Req CIdle])) [Req CIdle; Req CIdle; OpenDone 0 true; Resume 2; Resume 0; Resume 1; Req CIdle])) 0.
 Proof.
   split; [vm_compute; reflexivity|]. split; [exists SIdle | exists SOpen]; (split; [vm_compute; reflexivity | discriminate]).
 Qed.
 
 (* a Busy connection is healthy: requests keep going to it, no second connection *)
 Example C16_example_busy :
-  snd (run init [Req false; OpenDone 0 true; Resume 0; SetBusy 0 true; Req false; Req false; SetBusy 0 false; Req false])
+  snd (run init [Req CIdle; OpenDone 0 true; Resume 0; SetBusy 0 true; Req CIdle; Req CIdle; SetBusy 0 false; Req CIdle])
   = [[Create 0; OpenUnder 0]; []; [Forward 0 0]; []; [Forward 1 0]; [Forward 2 0]; []; [Forward 3 0]].
+Proof. vm_compute; reflexivity. Qed.
+
+(* sinks whose Open() completes inside the call: no waiting; a synchronously failed one is replaced by the next request *)
+Example C16_example_sync_open :
+  snd (run init [Req COpenNow; Req CIdle; Fault 0; Req CFailNow; Req COpenNow; Req CFail])
+  = [[Create 0; OpenUnder 0; Forward 0 0]; [Forward 1 0]; [PoolFault]; [Create 1; OpenUnder 1; Forward 2 1];
+     [Create 2; OpenUnder 2; Forward 3 2]; [Forward 4 2]].
 Proof. vm_compute; reflexivity. Qed.
 
 (* pool.Open() whose greenlet starts only after a request has created the sink: it joins that open *)
 Example C16_example_late_start :
-  snd (run init [OpenPool; Req false; Start 0 false; OpenPool; OpenDone 0 true; Resume 0; Resume 1; ClosePool; ClosePool; Req false])
+  snd (run init [OpenPool; Req CIdle; Start 0 CIdle; OpenPool; OpenDone 0 true; Resume 0; Resume 1; ClosePool; ClosePool; Req CIdle])
   = [[]; [Create 0; OpenUnder 0]; [OpenUnder 0]; [OpenResult 2 true]; []; [OpenResult 0 true]; [Forward 1 0]; []; [CloseUnder 0];
      [Create 1; OpenUnder 1]].
 Proof. vm_compute; reflexivity. Qed.
 
 (* fault, replacement, the dead sink is left alone (hypothesis of C16_replace: sink 0 closed) *)
 Example C16_example_replace :
-  snd (run init [Req false; OpenDone 0 true; Resume 0; Fault 0; Req false; Req false; OpenDone 1 true; Resume 2; Resume 1])
+  snd (run init [Req CIdle; OpenDone 0 true; Resume 0; Fault 0; Req CIdle; Req CIdle; OpenDone 1 true; Resume 2; Resume 1])
   = [[Create 0; OpenUnder 0]; []; [Forward 0 0]; [PoolFault]; [Create 1; OpenUnder 1]; [OpenUnder 1]; []; [Forward 2 1]; [Forward 1 1]]
-  /\ closed (fst (run init [Req false; OpenDone 0 true; Resume 0; Fault 0])) 0.
+  /\ closed (fst (run init [Req CIdle; OpenDone 0 true; Resume 0; Fault 0])) 0.
 Proof. split; vm_compute; reflexivity. Qed.
 
 (* ref counting with two holders, the connection failing while both hold it, and a surplus close
